@@ -201,9 +201,12 @@ class Base:
         uneliminatable_annotations = frozenset(a for a in annotations if not (a.eliminatable or a.relocatable))
         relocatable_annotations = frozenset(a for a in annotations if not a.eliminatable and a.relocatable)
 
+        # which uneliminatable annotations occur below this node does not depend on how its own annotation list was set
+        for a in b_args:
+            uneliminatable_annotations |= a._uneliminatable_annotations
+
         if not skip_child_annotations:
             for a in b_args:
-                uneliminatable_annotations |= a._uneliminatable_annotations
                 relocatable_annotations |= a._relocatable_annotations
 
             annotations = tuple(frozenset((*annotations, *relocatable_annotations)))
@@ -259,7 +262,7 @@ class Base:
         ):
             uneliminatable_annotations = frozenset(
                 anno for anno in annotations if not anno.eliminatable and not anno.relocatable
-            )
+            ).union(*(a._uneliminatable_annotations for a in args if isinstance(a, Base)))
             relocatable_annotations = frozenset(
                 anno for anno in annotations if not anno.eliminatable and anno.relocatable
             )
